@@ -10,6 +10,7 @@
 import Hx.Obs
 import Hx.Spec.Chk
 import Hx.Lemmas.StableAll
+import Hx.Lemmas.NoUB
 namespace Hx
 
 theorem c02_request (be : Backend) (hbe : be.Exact) (cfg : Config) (cap : Nat) (buf ext : List Byte) :
@@ -30,10 +31,10 @@ theorem c02_chunk (dbg : Bool) (buf ext : List Byte) :
 
 /-- every prefix shorter than `n` of an accepted head yields Partial -/
 theorem c02_prefix_partial (be : Backend) (hbe : be.Exact) (cfg : Config) (cap : Nat) (buf : List Byte)
-    (n k : Nat) (h : (reqObs be cfg cap buf).st = .c n) (hk : k < n)
-    (hnc : (reqObs be cfg cap (buf.take k)).st ≠ .crash) :
+    (n k : Nat) (h : (reqObs be cfg cap buf).st = .c n) (hk : k < n) :
     (reqObs be cfg cap (buf.take k)).st = .p :=
-  req_prefix_partial be hbe cfg cap buf n k h hk hnc
+  req_prefix_partial be hbe cfg cap buf n k h hk
+    (by have := chkC01_reqObs be hbe cfg cap (buf.take k); simpa [chkC01] using this)
 
 /-- however a stream is chunked, re-parsing the growing buffer ends in the same answer: the
 result on any prefix that is already decided (Complete/Err) equals the result on the whole -/
@@ -41,5 +42,6 @@ theorem c02_chunking (be : Backend) (hbe : be.Exact) (cfg : Config) (cap : Nat) 
     (h : (reqObs be cfg cap (stream.take k)).st ≠ .p) :
     (reqObs be cfg cap stream).st = (reqObs be cfg cap (stream.take k)).st :=
   req_chunking be hbe cfg cap stream k h
+    (by have := chkC01_reqObs be hbe cfg cap (stream.take k); simpa [chkC01] using this)
 
 end Hx
